@@ -176,4 +176,165 @@ theorem update_append_fail (s t : Bytes) : ∀ ctx ctx' out k, decodeUpdate ctx 
 
 /-! ### decoding what encode_raw produces -/
 
+/-- `ctx->word = ctx->word << 6 | data` -/
+def wstep (w v : Nat) : Nat := (w * 64 + v) % 65536
+
+theorem step0 {c : UInt8} {v : Nat} (h : tableAt c = (v : Int)) (hv : v < 64) (w : Nat) :
+    decodeSingle ⟨w, 0, 0⟩ c = (⟨wstep w v, 6, 0⟩, .none) := by
+  rw [single_data h hv]; simp [wstep]
+
+theorem step6 {c : UInt8} {v : Nat} (h : tableAt c = (v : Int)) (hv : v < 64) (w : Nat) :
+    decodeSingle ⟨w, 6, 0⟩ c = (⟨wstep w v, 4, 0⟩, .byte (UInt8.ofNat (wstep w v / 16))) := by
+  rw [single_data h hv]; simp [wstep]
+
+theorem step4 {c : UInt8} {v : Nat} (h : tableAt c = (v : Int)) (hv : v < 64) (w : Nat) :
+    decodeSingle ⟨w, 4, 0⟩ c = (⟨wstep w v, 2, 0⟩, .byte (UInt8.ofNat (wstep w v / 4))) := by
+  rw [single_data h hv]; simp [wstep]
+
+theorem step2 {c : UInt8} {v : Nat} (h : tableAt c = (v : Int)) (hv : v < 64) (w : Nat) :
+    decodeSingle ⟨w, 2, 0⟩ c = (⟨wstep w v, 0, 0⟩, .byte (UInt8.ofNat (wstep w v))) := by
+  rw [single_data h hv]; simp [wstep]
+
+/-- four data characters from bits = 0 -/
+theorem decode_quad {c1 c2 c3 c4 : UInt8} {v1 v2 v3 v4 : Nat}
+    (h1 : tableAt c1 = (v1 : Int)) (h2 : tableAt c2 = (v2 : Int)) (h3 : tableAt c3 = (v3 : Int)) (h4 : tableAt c4 = (v4 : Int))
+    (l1 : v1 < 64) (l2 : v2 < 64) (l3 : v3 < 64) (l4 : v4 < 64) (w : Nat) (rest : Bytes) :
+    decodeUpdate ⟨w, 0, 0⟩ (c1 :: c2 :: c3 :: c4 :: rest) =
+      ((decodeUpdate ⟨wstep (wstep (wstep (wstep w v1) v2) v3) v4, 0, 0⟩ rest).1,
+       UInt8.ofNat (wstep (wstep w v1) v2 / 16) :: UInt8.ofNat (wstep (wstep (wstep w v1) v2) v3 / 4) ::
+         UInt8.ofNat (wstep (wstep (wstep (wstep w v1) v2) v3) v4) ::
+         (decodeUpdate ⟨wstep (wstep (wstep (wstep w v1) v2) v3) v4, 0, 0⟩ rest).2.1,
+       (decodeUpdate ⟨wstep (wstep (wstep (wstep w v1) v2) v3) v4, 0, 0⟩ rest).2.2) := by
+  rw [decodeUpdate_cons, step0 h1 l1]
+  simp only
+  rw [decodeUpdate_cons, step6 h2 l2]
+  simp only
+  rw [decodeUpdate_cons, step4 h3 l3]
+  simp only
+  rw [decodeUpdate_cons, step2 h4 l4]
+
+/-- the bytes recovered from the sextets of a group -/
+theorem quad_bytes (w : Nat) (a b c : Nat) (ha : a < 256) (hb : b < 256) (hc : c < 256) :
+    let v1 := (a / 4) % 64
+    let v2 := (a * 16 + b / 16) % 64
+    let v3 := (b * 4 + c / 64) % 64
+    let v4 := c % 64
+    (wstep (wstep w v1) v2 / 16) % 256 = a ∧ (wstep (wstep (wstep w v1) v2) v3 / 4) % 256 = b ∧
+    (wstep (wstep (wstep (wstep w v1) v2) v3) v4) % 256 = c := by
+  simp only [wstep]
+  omega
+
+theorem enc_or1 (a b : UInt8) : (a.toNat <<< 4) ||| (b.toNat >>> 4) = a.toNat * 16 + b.toNat / 16 := by
+  have hb := b.toNat_lt
+  have := shl_or (k := 4) (d := b.toNat >>> 4) a.toNat (by rw [Nat.shiftRight_eq_div_pow]; omega)
+  simpa [Nat.shiftRight_eq_div_pow] using this
+
+theorem enc_or2 (b c : UInt8) : (b.toNat <<< 2) ||| (c.toNat >>> 6) = b.toNat * 4 + c.toNat / 64 := by
+  have hc := c.toNat_lt
+  have := shl_or (k := 2) (d := c.toNat >>> 6) b.toNat (by rw [Nat.shiftRight_eq_div_pow]; omega)
+  simpa [Nat.shiftRight_eq_div_pow] using this
+
+/-- a full group: four characters give back the three bytes and leave bits = 0 -/
+theorem decode_group (w : Nat) (a b c : UInt8) (rest : Bytes) :
+    ∃ w', decodeUpdate ⟨w, 0, 0⟩ (encodeRaw [a, b, c] ++ rest) =
+      ((decodeUpdate ⟨w', 0, 0⟩ rest).1, a :: b :: c :: (decodeUpdate ⟨w', 0, 0⟩ rest).2.1, (decodeUpdate ⟨w', 0, 0⟩ rest).2.2) := by
+  have ha := a.toNat_lt
+  have hb := b.toNat_lt
+  have hc := c.toNat_lt
+  simp only [Nat.reducePow] at ha hb hc
+  have m := fun x => Nat.mod_lt x (show 64 > 0 by decide)
+  have q := quad_bytes w a.toNat b.toNat c.toNat ha hb hc
+  simp only at q
+  refine ⟨wstep (wstep (wstep (wstep w (a.toNat / 4 % 64)) ((a.toNat * 16 + b.toNat / 16) % 64)) ((b.toNat * 4 + c.toNat / 64) % 64)) (c.toNat % 64), ?_⟩
+  simp only [encodeRaw, List.cons_append, List.nil_append]
+  rw [decode_quad (table_alpha _) (table_alpha _) (table_alpha _) (table_alpha _) (m _) (m _) (m _) (m _)]
+  rw [enc_or1, enc_or2, Nat.shiftRight_eq_div_pow]
+  have b0 := (ofNat_eq_iff _ a).mpr q.1
+  have b1 := (ofNat_eq_iff _ b).mpr q.2.1
+  have b2 := (ofNat_eq_iff _ c).mpr q.2.2
+  simp only [Nat.reducePow] at b0 b1 b2 ⊢
+  rw [b0, b1, b2]
+
+theorem table_61 : tableAt 61 = -3 := by decide
+
+/-- an acceptable pad character -/
+theorem padstep (w b p : Nat) (hb : 2 ≤ b) (hb6 : b ≤ 6) (hp : p ≤ 2) (hw : w % 2 ^ b = 0) :
+    decodeSingle ⟨w, b, p⟩ 61 = (⟨w, b - 2, p + 1⟩, .none) := by
+  rw [single_pad table_61]
+  have h1 : ¬ (b = 0 ∨ p > 2) := by omega
+  simp only [h1, ↓reduceIte, hw, ne_eq, not_true_eq_false]
+  have e1 : (p + 1) % 256 = p + 1 := by omega
+  have e2 : (b + 256 - 2) % 256 = b - 2 := by omega
+  rw [e1, e2]
+
+theorem decode_tail1 (w : Nat) (a : UInt8) :
+    ∃ ctx', decodeUpdate ⟨w, 0, 0⟩ (encodeRaw [a]) = (ctx', [a], .ok) ∧ ctx'.bits = 0 ∧ ctx'.padding = 2 := by
+  have ha := a.toNat_lt
+  simp only [Nat.reducePow] at ha
+  have m := fun x => Nat.mod_lt x (show 64 > 0 by decide)
+  simp only [encodeRaw]
+  rw [decodeUpdate_cons, step0 (table_alpha _) (m _)]
+  simp only
+  rw [decodeUpdate_cons, step6 (table_alpha _) (m _)]
+  simp only
+  rw [Nat.shiftRight_eq_div_pow, Nat.shiftLeft_eq]
+  have hz : wstep (wstep w (a.toNat / 2 ^ 2 % 64)) (a.toNat * 2 ^ 4 % 64) % 2 ^ 4 = 0 := by
+    simp only [wstep]; omega
+  have hz2 : wstep (wstep w (a.toNat / 2 ^ 2 % 64)) (a.toNat * 2 ^ 4 % 64) % 2 ^ 2 = 0 := by
+    simp only [wstep]; omega
+  rw [decodeUpdate_cons, padstep _ 4 0 (by decide) (by decide) (by decide) hz]
+  simp only
+  rw [decodeUpdate_cons, padstep _ 2 1 (by decide) (by decide) (by decide) hz2]
+  simp only [decodeUpdate]
+  have b0 : UInt8.ofNat (wstep (wstep w (a.toNat / 2 ^ 2 % 64)) (a.toNat * 2 ^ 4 % 64) / 16) = a := by
+    rw [ofNat_eq_iff]; simp only [wstep]; omega
+  rw [b0]
+  exact ⟨_, rfl, rfl, rfl⟩
+
+theorem decode_tail2 (w : Nat) (a b : UInt8) :
+    ∃ ctx', decodeUpdate ⟨w, 0, 0⟩ (encodeRaw [a, b]) = (ctx', [a, b], .ok) ∧ ctx'.bits = 0 ∧ ctx'.padding = 1 := by
+  have ha := a.toNat_lt
+  have hb := b.toNat_lt
+  simp only [Nat.reducePow] at ha hb
+  have m := fun x => Nat.mod_lt x (show 64 > 0 by decide)
+  simp only [encodeRaw]
+  rw [decodeUpdate_cons, step0 (table_alpha _) (m _)]
+  simp only
+  rw [decodeUpdate_cons, step6 (table_alpha _) (m _)]
+  simp only
+  rw [decodeUpdate_cons, step4 (table_alpha _) (m _)]
+  simp only
+  rw [enc_or1, Nat.shiftRight_eq_div_pow, Nat.shiftLeft_eq]
+  have hz : wstep (wstep (wstep w (a.toNat / 2 ^ 2 % 64)) ((a.toNat * 16 + b.toNat / 16) % 64)) (b.toNat * 2 ^ 2 % 64) % 2 ^ 2 = 0 := by
+    simp only [wstep]; omega
+  rw [decodeUpdate_cons, padstep _ 2 0 (by decide) (by decide) (by decide) hz]
+  simp only [decodeUpdate]
+  have b0 : UInt8.ofNat (wstep (wstep w (a.toNat / 2 ^ 2 % 64)) ((a.toNat * 16 + b.toNat / 16) % 64) / 16) = a := by
+    rw [ofNat_eq_iff]; simp only [wstep]; omega
+  have b1 : UInt8.ofNat (wstep (wstep (wstep w (a.toNat / 2 ^ 2 % 64)) ((a.toNat * 16 + b.toNat / 16) % 64)) (b.toNat * 2 ^ 2 % 64) / 4) = b := by
+    rw [ofNat_eq_iff]; simp only [wstep]; omega
+  rw [b0, b1]
+  exact ⟨_, rfl, rfl, rfl⟩
+
+/-- decoding the output of encode_raw, from any context with bits = 0 and no padding seen -/
+theorem decode_encodeRaw (x : Bytes) : ∀ w, ∃ ctx', decodeUpdate ⟨w, 0, 0⟩ (encodeRaw x) = (ctx', x, .ok) ∧
+    ctx'.bits = 0 ∧ ctx'.padding ≤ 2 := by
+  induction x using encodeRaw.induct with
+  | case1 a b c rest ih =>
+    intro w
+    obtain ⟨w', hg⟩ := decode_group w a b c (encodeRaw rest)
+    obtain ⟨ctx', h, hb, hp⟩ := ih w'
+    refine ⟨ctx', ?_, hb, hp⟩
+    have : encodeRaw (a :: b :: c :: rest) = encodeRaw [a, b, c] ++ encodeRaw rest := by simp [encodeRaw]
+    rw [this, hg, h]
+  | case2 a b =>
+    intro w
+    obtain ⟨ctx', h, hb, hp⟩ := decode_tail2 w a b
+    exact ⟨ctx', h, hb, by omega⟩
+  | case3 a =>
+    intro w
+    obtain ⟨ctx', h, hb, hp⟩ := decode_tail1 w a
+    exact ⟨ctx', h, hb, by omega⟩
+  | case4 => intro w; exact ⟨_, rfl, rfl, Nat.zero_le _⟩
+
 end SquidModel.Base64
